@@ -23,6 +23,8 @@ Theorems (over Model/ListOffsets.lean and Model/Seek.lean):
     mapping_exact_metadata         leader / replicas / ISR of every partition resolve to the listed brokers; order and fields kept
     mapping_exact_readPartitions   same for Conn.ReadPartitions (placeholder brokers for unlisted ids)
     mapping_exact_listOffsets_step one merged entry updates its own partition's record only, in the field its timestamp selects
+    clientStep_other / clientApply_untouched / clientApply_total   the whole fold: partitions the response does not mention keep their
+                          record, no record is lost, and no nil-map panic when every entry concerns a requested partition
 -/
 import KafkaVerif.Model.ListOffsets
 import KafkaVerif.Model.Seek
@@ -473,7 +475,7 @@ LastOffset / an Offsets entry as the entry's (restored) timestamp selects, and t
 carries one.  (Hence a failed part's placeholder marks its own partition only.) -/
 theorem mapping_exact_listOffsets_step (m : List ((String × Int) × PartitionOffsets)) (t : String) (p : ResPart)
     (cur : PartitionOffsets) (hcur : m.lookup (t, p.partition) = some cur) :
-    ∃ r, clientApply m ⟨0, [(t, [p])]⟩ = some (KV.ListOffsets.ainsert m (t, p.partition) r) ∧
+    ∃ r, clientStep m (t, p) = some (KV.ListOffsets.ainsert m (t, p.partition) r) ∧
       (∀ k, k ≠ (t, p.partition) → (KV.ListOffsets.ainsert m (t, p.partition) r).lookup k = m.lookup k) ∧
       (KV.ListOffsets.ainsert m (t, p.partition) r).lookup (t, p.partition) = some r ∧
       r.partition = cur.partition ∧
@@ -490,10 +492,67 @@ theorem mapping_exact_listOffsets_step (m : List ((String × Int) × PartitionOf
     exact ⟨fun k hk => lookup_ainsert_other m _ k r hk, lookup_ainsert_self m _ r⟩
   by_cases hf : p.timestamp = firstOffset <;> by_cases hl : p.timestamp = lastOffset <;>
     by_cases he : p.error = 0 <;>
-    simp only [clientApply, List.flatMap_cons, List.flatMap_nil, List.map_cons, List.map_nil, List.append_nil,
-      List.foldlM_cons, List.foldlM_nil, hcur, bind, Option.bind, pure] <;>
+    simp only [clientStep, hcur] <;>
     simp [hf, hl, he, firstOffset, lastOffset, KV.Gen.Offsets.firstOffset, KV.Gen.Offsets.lastOffset] at * <;>
     exact ⟨_, rfl, (hlook _).1, (hlook _).2, by simp_all [firstOffset, lastOffset, KV.Gen.Offsets.firstOffset, KV.Gen.Offsets.lastOffset]⟩
+
+/-- whatever an entry does, it writes the record of its own (topic, partition) only and never removes a record -/
+theorem clientStep_other (m m' : List ((String × Int) × PartitionOffsets)) (e : String × ResPart)
+    (h : clientStep m e = some m') :
+    (∀ k, k ≠ (e.1, e.2.partition) → m'.lookup k = m.lookup k) ∧ (m'.lookup (e.1, e.2.partition)).isSome = true := by
+  have key : ∃ r, m' = KV.ListOffsets.ainsert m (e.1, e.2.partition) r := by
+    simp only [clientStep] at h
+    split at h
+    · split at h
+      · exact ⟨_, (Option.some.inj h).symm⟩
+      · cases h
+    · exact ⟨_, (Option.some.inj h).symm⟩
+  obtain ⟨r, rfl⟩ := key
+  rw [ainsert_eq]
+  exact ⟨fun k hk => lookup_ainsert_other m _ k r hk, by rw [lookup_ainsert_self]; rfl⟩
+
+/-- **Client.ListOffsets, the whole fold**: the records of partitions the merged response does not mention are
+exactly what the request loop initialised; every record that existed still exists. -/
+theorem clientApply_untouched (es : List (String × ResPart)) (m m' : List ((String × Int) × PartitionOffsets))
+    (h : es.foldlM clientStep m = some m') :
+    (∀ k, (∀ e ∈ es, (e.1, e.2.partition) ≠ k) → m'.lookup k = m.lookup k) ∧
+    (∀ k, (m.lookup k).isSome = true → (m'.lookup k).isSome = true) := by
+  induction es generalizing m with
+  | nil => simp only [List.foldlM_nil, pure] at h; cases h; exact ⟨fun _ _ => rfl, fun _ h => h⟩
+  | cons e es ih =>
+    simp only [List.foldlM_cons, bind, Option.bind] at h
+    cases hs : clientStep m e with
+    | none => simp [hs] at h
+    | some m1 =>
+      simp only [hs] at h
+      obtain ⟨h1, h2⟩ := ih m1 h
+      obtain ⟨s1, s2⟩ := clientStep_other m m1 e hs
+      refine ⟨fun k hk => ?_, fun k hk => ?_⟩
+      · rw [h1 k (fun x hx => hk x (List.mem_cons_of_mem _ hx))]
+        exact s1 k (fun heq => hk e List.mem_cons_self heq.symm)
+      · apply h2
+        by_cases hke : k = (e.1, e.2.partition)
+        · subst hke; exact s2
+        · rw [s1 k hke]; exact hk
+
+/-- when every entry of the merged response concerns a requested partition (what `entries_exact` gives for
+well-formed part answers) the fold never hits the nil-map panic -/
+theorem clientApply_total (es : List (String × ResPart)) (m : List ((String × Int) × PartitionOffsets))
+    (h : ∀ e ∈ es, (m.lookup (e.1, e.2.partition)).isSome = true) : ∃ m', es.foldlM clientStep m = some m' := by
+  induction es generalizing m with
+  | nil => exact ⟨m, rfl⟩
+  | cons e es ih =>
+    obtain ⟨cur, hcur⟩ := Option.isSome_iff_exists.mp (h e List.mem_cons_self)
+    obtain ⟨r, hr, _⟩ := mapping_exact_listOffsets_step m e.1 e.2 cur hcur
+    have hr' : clientStep m e = some (KV.ListOffsets.ainsert m (e.1, e.2.partition) r) := hr
+    obtain ⟨_, s2⟩ := clientStep_other m _ e hr'
+    have hk : ∀ x ∈ es, ((KV.ListOffsets.ainsert m (e.1, e.2.partition) r).lookup (x.1, x.2.partition)).isSome = true := by
+      intro x hx
+      by_cases hke : (x.1, x.2.partition) = (e.1, e.2.partition)
+      · rw [hke]; exact s2
+      · rw [(clientStep_other m _ e hr').1 _ hke]; exact h x (List.mem_cons_of_mem _ hx)
+    obtain ⟨m', hm'⟩ := ih _ hk
+    exact ⟨m', by simp only [List.foldlM_cons, bind, Option.bind, hr', hm']⟩
 
 end mappings
 
